@@ -191,12 +191,15 @@ def run(ctx: Ctx) -> None:
     tableau.rule_rowops(ctx)
     from ..rules import effects, loops
     loops.rule_pivot_choice(ctx, STABF)
+    from ..rules import memo
+    memo.rule_memo_sound(ctx, [RC, STABF, TR])
     effects.rule_consumed_tableau(ctx, [RC, STABF, "graphiq/backends/stabilizer/functions/metric.py"])
     ctx.floor("reverse.table", 18)
     ctx.floor("emit.mirror", 6)
 
 
 KNOCKOUTS = [
+    Knockout("clifford-cache-without-signs", RC, sub_once("def clifford_from_stabilizer(stabilizer_tableau):", "_CT_CACHE = {}\n\n\ndef clifford_from_stabilizer_cached(stabilizer_tableau):\n    key = (stabilizer_tableau.n_qubits, stabilizer_tableau.table.tobytes())\n    if key not in _CT_CACHE:\n        _CT_CACHE[key] = clifford_from_stabilizer(stabilizer_tableau)\n    return _CT_CACHE[key].copy()\n\n\ndef clifford_from_stabilizer(stabilizer_tableau):"), "memo.sound", "key does not determine"),
     Knockout("pivot-first-z", STABF, sub_once("tab_row_swap(tableau, pivot[0], z_list[-1])", "tab_row_swap(tableau, pivot[0], z_list[0])"), "pivot.choice", "Z-only pivot"),
     Knockout("consumed-input", RC, sub_once("    _, circuit = inverse_circuit(stabilizer_tableau.copy())", "    _, circuit = inverse_circuit(stabilizer_tableau)"),
              "effect.consumed-tableau", "clifford_from_stabilizer", on_fixed_only=True),
